@@ -94,12 +94,12 @@ def run_ids(ctx, n, n_coq):
             lg = avh.call({'op': 'legacy_safe', 's': mid}).get('out')
             case = {'stream': 'ids', 'id': mid, 'id_codepoints': [ord(c) for c in mid], 'fs_key': k, 'sanitize': sn, 'legacy_safe': lg}
             if not isinstance(k, str) or not isinstance(sn, str):
-                ctx.violation('module_fs_key / sanitize_fs_component failed (panic?) on an id', case); continue
+                report(ctx, 'module_fs_key / sanitize_fs_component failed (panic?) on an id', case); continue
             bad = key_safety(k)
             if bad:
-                ctx.violation('derived directory name is unsafe: ' + bad, case)
+                report(ctx, 'derived directory name is unsafe: ' + bad, case)
             if k != py_key(mid):
-                ctx.violation('fs key is not <sanitised bounded prefix>--<sha256[:10]>', case)
+                report(ctx, 'fs key is not <sanitised bounded prefix>--<sha256[:10]>', case)
             truncated = len(py_sanitize(mid) or 'module') > PREFIX_MAX
             other = seen.get(k)
             if other is not None and other != mid:
@@ -107,7 +107,7 @@ def run_ids(ctx, n, n_coq):
                 if sha_hex(other)[:10] == sha_hex(mid)[:10] and ctx.is_known('K13a'):
                     ctx.known_finding('K13a', 'two module ids with equal sanitised prefix and equal first 40 SHA-256 bits share one fs key')
                 else:
-                    ctx.violation('two different module ids have the same fs key', case)
+                    report(ctx, 'two different module ids have the same fs key', case)
             seen.setdefault(k, mid)
             ctx.count('ids', key=mid, nontrivial=(py_sanitize(mid) != mid or truncated or mid == ''),
                       tags=['truncated' if truncated else 'short', 'legacy_safe' if lg else 'legacy_unsafe'])
@@ -117,7 +117,7 @@ def run_ids(ctx, n, n_coq):
             if i in (4, 30):
                 ctx.sample(case)
     for c in ctx.corr('ids', HEADER, 'check_ids', 'str * str * (str * str * bool)', cases):
-        ctx.violation('model and implementation disagree on module_fs_key / sanitize / legacy_safe', c, no_input=True)
+        report(ctx, 'model and implementation disagree on module_fs_key / sanitize / legacy_safe', c, no_input=True)
 
 # ------------------------------------------------------------------ worlds
 
@@ -329,9 +329,11 @@ def gen_layer(rng, cur, up, git):
     other = rng.choice([p for p in tp if p != rel] or [rel])
     good = patch_for(rel) if rel in cur else b''
     name = '.agentpack/patches/%s.patch' % rel
+    raws = sorted(p for p, b in cur.items() if not is_utf8(b))
     kind = rng.choice(['hdr_mismatch', 'devnull', 'two_diffs', 'empty', 'nohdr', 'binary', 'nonutf8_patch', 'missing_target', 'raw_target',
                        'backslash', 'upper_ext', 'tab_ts', 'no_ab', 'hunk_like_header', 'mixed', 'kind_dir_with_patch',
-                       'kind_patch_with_overrides', 'garbage_meta', 'badkind', 'type_conflict', 'meta_target', 'crlf', 'nested_ok', 'stale'])
+                       'kind_patch_with_overrides', 'garbage_meta', 'badkind', 'type_conflict', 'meta_target', 'crlf', 'nested_ok', 'stale']
+                      + (['raw_target'] * 4 if raws else []))
     meta = 'patch'
     if kind == 'hdr_mismatch': files['.agentpack/patches/%s.patch' % other] = good if other != rel else good.replace(rel.encode(), b'zz.txt')
     elif kind == 'devnull': files[name] = ('--- /dev/null\n+++ b/%s\n@@ -0,0 +1 @@\n+x\n' % rel).encode()
@@ -342,7 +344,8 @@ def gen_layer(rng, cur, up, git):
     elif kind == 'nonutf8_patch': files[name] = b'\xff\xfe' + good
     elif kind == 'missing_target': files['.agentpack/patches/nope.txt.patch'] = good.replace(rel.encode(), b'nope.txt')
     elif kind == 'raw_target':
-        files['.agentpack/patches/bin.dat.patch'] = good.replace(rel.encode(), b'bin.dat')
+        tgt = rng.choice(raws) if raws else 'bin.dat'
+        files['.agentpack/patches/%s.patch' % tgt] = good.replace(rel.encode(), tgt.encode())
     elif kind == 'backslash': files['.agentpack/patches/a\\..\\%s.patch' % rel.replace('/', '\\')] = good
     elif kind == 'upper_ext': files['.agentpack/patches/%s.PATCH' % rel] = good
     elif kind == 'tab_ts':
@@ -379,7 +382,7 @@ def gen_scenario(rng, git):
     up = {'SKILL.md': (SK_HEAD + gen_text(rng)).encode()}
     for r in rng.sample(POOL, rng.randrange(0, len(POOL) + 1)):
         up[r] = gen_text(rng).encode()
-    if rng.random() < 0.25: up['bin.dat'] = bytes([255, 254, rng.randrange(256)])
+    if rng.random() < 0.35: up['bin.dat'] = bytes([255, 254, rng.randrange(256)])
     up_noise = {r: b'upstream meta\n' for r in rng.sample(['.git/HEAD', '.agentpack/up.json', 'sub/.git/config', 'sub/.agentpack/n'], rng.randrange(0, 3))}
     scopes = [s for s in ('global', 'machine', 'project') if rng.random() < 0.6]
     return {'id': mid, 'upstream': up, 'up_noise': up_noise, 'scopes': scopes}
@@ -396,6 +399,8 @@ class Runner:
         self.sb.git_init_project()
         self.codex_home = os.path.join(self.sb.home, 'codex_home')
         self.git = Git(os.path.join(self.sb.root, 'gitwork')); os.makedirs(self.git.root)
+        # library-level driver; its `git apply` runs below the sandbox, which must not be taken for part of the /verif repository
+        self.avh = Avh(env={'GIT_CEILING_DIRECTORIES': self.sb.root})
         self.bases = None
     def reset(self):
         for d in ('overlays', 'projects', 'modules'):
@@ -413,6 +418,7 @@ class Runner:
             self.bases = {sc: os.path.dirname(self.overlay_path('skill:probe', sc)) for sc in ('global', 'machine', 'project')}
         return self.bases
     def close(self):
+        self.avh.close()
         self.sb.close()
 
 def read_tree(root):
@@ -488,7 +494,7 @@ def run_scenario(rn, seed):
             spec = spec_layer(layer, spec[1], rn.git, tab)
             if spec[0] == 'ok': cur = spec[1]
     # model input: what is on disk below each base
-    scope_terms = []; disk = {}
+    scope_terms = []; disk = {}; resolved = []
     for scope in ('global', 'machine', 'project'):
         base = bases[scope]; present = []
         if os.path.isdir(base):
@@ -500,6 +506,7 @@ def run_scenario(rn, seed):
         disk[scope] = [(n, m, sorted(fs)) for n, m, fs in present]
         scope_terms.append(cq.clist([cq.cpair(cq.cstr(n), cq.cpair(C_META[m], c_files(fs))) for n, m, fs in present]))
         got = rn.overlay_path(mid, scope)
+        resolved.append({'scope': scope, 'dir': got})
         if os.path.dirname(got) != base:
             resolve_cases.append(('escape', scope, got))
         resolve_cases.append((scope, [n for n, _, _ in present], os.path.basename(got)))
@@ -515,11 +522,18 @@ def run_scenario(rn, seed):
         observed = {p[len(pref):]: b for p, b in deployed_all.items()} if pref else {}
     else:
         code = (doc['errors'][0]['code'] if doc and doc.get('errors') else 'NO_ENVELOPE')
+    # the library function on the same world (every file of its out dir is observed, no target-side filter in between)
+    lib_out = os.path.join(sb.root, 'libout')
+    shutil.rmtree(lib_out, ignore_errors=True)
+    lr = rn.avh.call({'op': 'compose', 'id': mid, 'upstream': os.path.join(sb.repo, 'modules/m'), 'layers': resolved, 'out': lib_out})
+    lib_tree = read_tree(lib_out) if lr.get('ok') else None
+    lib_code = None if lr.get('ok') else (lr.get('code') or 'E_UNEXPECTED')
     rec = {'stream': 'compose', 'scenario_seed': seed, 'meta_home': rn.meta_home, 'module_id': mid, 'layers': layers_meta, 'tags': tags,
            'upstream': {r: b.decode('utf-8', 'replace') for r, b in sc['upstream'].items()}, 'disk': disk,
            'spec': (spec[0], spec[1] if spec[0] == 'err' else {r: b.decode('utf-8', 'replace') for r, b in spec[1].items()}) + ((spec[2],) if spec[0] == 'err' else ()),
            'impl': {'rc': rc, 'code': code, 'deployed': None if observed is None else {r: b.decode('utf-8', 'replace') for r, b in observed.items()},
-                    'stderr': err[:300], 'message': (doc['errors'][0].get('message', '')[:300] if doc and doc.get('errors') else '')}}
+                    'stderr': err[:300], 'message': (doc['errors'][0].get('message', '')[:300] if doc and doc.get('errors') else '')},
+           'lib': {'code': lib_code, 'tree': None if lib_tree is None else {r: b.decode('utf-8', 'replace') for r, b in lib_tree.items()}}}
     viol = []
     # ---- the property, on the implementation's behaviour
     if observed is not None:
@@ -540,12 +554,22 @@ def run_scenario(rn, seed):
             viol.append('composition that must succeed was refused with %s' % code)
         elif ERR_CODES.get(code, 2) != spec[1]:
             viol.append('refusal (%s) carries code %s instead of the stable code for that cause' % (spec[2], code))
+    if lib_tree is not None:
+        bad = [p for p in lib_tree if has_meta(p)]
+        if bad: viol.append('compose_module_tree left a path with a .agentpack/.git component in the module tree: %s' % bad[:3])
+        if spec[0] == 'err': viol.append('compose_module_tree accepted an overlay that must be refused (%s)' % spec[2])
+        elif lib_tree != spec[1] and not bad:
+            viol.append('compose_module_tree output differs from the layer-precedence result at %s' % sorted(p for p in set(lib_tree) | set(spec[1]) if lib_tree.get(p) != spec[1].get(p))[:4])
+    else:
+        if spec[0] == 'ok': viol.append('compose_module_tree refused (%s) a composition that must succeed' % lib_code)
+        elif ERR_CODES.get(lib_code, 2) != spec[1]: viol.append('compose_module_tree refusal (%s) carries code %s instead of the stable code for that cause' % (spec[2], lib_code))
     # ---- Coq case
     if observed is not None: obs_t = '(OOk %s)' % c_files(observed)
     else: obs_t = '(OErr %d)' % ERR_CODES.get(code, 2)
+    lib_t = '(OOk %s)' % c_files(lib_tree) if lib_tree is not None else '(OErr %d)' % ERR_CODES.get(lib_code, 2)
     tab_t = cq.clist([cq.cpair(cq.cstr(p), cq.cstr(t), cq.copt(r, cq.cstr)) for p, t, r in tab])
     term = cq.cpair(cq.cstr(mid), cq.cstr(sha_hex(mid)), c_files(dict(sc['upstream'], **sc['up_noise'])),
-                    cq.clist(scope_terms), tab_t, obs_t)
+                    cq.clist(scope_terms), tab_t, cq.cpair(obs_t, lib_t))
     rterms = []
     for rc_ in resolve_cases:
         if rc_[0] == 'escape':
@@ -555,6 +579,16 @@ def run_scenario(rn, seed):
                        {'stream': 'resolve', 'module_id': mid, 'scope': scope, 'present': present, 'impl_name': name, 'scenario_seed': seed}))
     return {'rec': rec, 'viol': viol, 'term': term, 'rterms': rterms, 'outcome': 'ok' if observed is not None else code,
             'spec_kind': spec[0] if spec[0] == 'ok' else 'err:%s' % spec[2]}
+
+REPORT_CAP = 6
+def report(ctx, what, case, no_input=False, _seen={}):
+    """ctx.violation with a cap per message class, so that a broken build does not write thousands of replay files"""
+    k = (id(ctx), what.split(' at [')[0].split(' (')[0][:60], no_input)
+    _seen[k] = _seen.get(k, 0) + 1
+    if _seen[k] <= REPORT_CAP:
+        ctx.violation(what, case, no_input=no_input)
+    elif _seen[k] == REPORT_CAP + 1:
+        ctx.notes.append('further violations of class %r not written as replays (cap %d)' % (k[1], REPORT_CAP))
 
 def run_compose(ctx, stream, seeds, meta_home):
     """meta_home: AGENTPACK_HOME below a directory named .agentpack (like the default ~/.agentpack).  Behaviour must be the same as
@@ -584,7 +618,7 @@ def run_compose(ctx, stream, seeds, meta_home):
                     ctx.known_finding('K13d', 'mixed directory+patch overlay below a directory named .agentpack is deployed instead of refused (fs::list_files absolute-path filter, DESIGN F10)')
                     continue
                 v = v[5:]
-            ctx.violation(v + suffix, r['rec'])
+            report(ctx, v + suffix, r['rec'])
         ctx.count(stream, key=(tuple(r['rec']['tags']), r['spec_kind'], r['rec']['module_id'][:8]), nontrivial=len(r['rec']['layers']) >= 1,
                   tags=['layers:%d' % len(r['rec']['layers']), 'outcome:%s' % r['outcome']] + (['F10-differs'] if f10 else [])
                        + [t.split(':', 1)[1].split('@')[0].split('+')[0] for t in r['rec']['tags']])
@@ -592,11 +626,11 @@ def run_compose(ctx, stream, seeds, meta_home):
         rcases.extend(r['rterms'])
         if i < 2: ctx.sample({k: r['rec'][k] for k in ('stream', 'module_id', 'tags', 'spec', 'impl')})
     for c in ctx.corr(stream, HEADER, 'check_compose', 'compose_case', cases, shard_chars=30000):
-        ctx.violation('model and implementation disagree on the composed module tree / refusal code' + suffix, c, no_input=True)
+        report(ctx, 'model and implementation disagree on the composed module tree / refusal code' + suffix, c, no_input=True)
     for t, c in rcases:
         ctx.count(stream + '_resolve', key=(c['module_id'][:8], c['scope'], tuple(c['present']), c['impl_name']), nontrivial=bool(c['present']))
     for c in ctx.corr(stream + '_resolve', HEADER, 'check_resolve', 'str * str * list str * str', rcases):
-        ctx.violation('model and implementation disagree on the overlay directory chosen (canonical / legacy fallback)' + suffix, c, no_input=True)
+        report(ctx, 'model and implementation disagree on the overlay directory chosen (canonical / legacy fallback)' + suffix, c, no_input=True)
 
 # ------------------------------------------------------------------ overlay dir resolution on its own (many ids)
 
@@ -621,19 +655,19 @@ def run_resolve(ctx, n):
             got = rn.overlay_path(mid, scope)
             case = {'stream': 'resolve', 'module_id': mid, 'scope': scope, 'present': present, 'impl_dir': os.path.relpath(got, rn.sb.repo)}
             if os.path.dirname(got) != base:
-                ctx.violation('overlay directory is not a single component below the scope base', case)
+                report(ctx, 'overlay directory is not a single component below the scope base', case)
             exp = py_key(mid)
             if exp not in present:
                 if py_key(mid, None) != exp and py_key(mid, None) in present: exp = py_key(mid, None)
                 elif py_legacy_safe(mid) and mid in present: exp = mid
             if os.path.basename(got) != exp:
-                ctx.violation('overlay directory is not canonical-key / unbounded-key / raw-id in that order', case)
+                report(ctx, 'overlay directory is not canonical-key / unbounded-key / raw-id in that order', case)
             ctx.count('resolve', key=(mid, scope, tuple(present)), nontrivial=bool(present), tags=['present:%d' % len(present), 'chosen:' + ('canonical' if os.path.basename(got) == py_key(mid) else 'fallback')])
             cases.append((cq.cpair(cq.cstr(mid), cq.cstr(sha_hex(mid)), cq.clist([cq.cstr(x) for x in present]), cq.cstr(os.path.basename(got))), case))
     finally:
         rn.close()
     for c in ctx.corr('resolve', HEADER, 'check_resolve', 'str * str * list str * str', cases):
-        ctx.violation('model and implementation disagree on the overlay directory chosen', c, no_input=True)
+        report(ctx, 'model and implementation disagree on the overlay directory chosen', c, no_input=True)
 
 # ------------------------------------------------------------------ known findings: replay the witnesses of the _refuted theorems
 
@@ -655,7 +689,7 @@ def finding(ctx, kid, reproduced, what, case):
         ctx.known_finding(kid, what)
     else:
         case = dict(case); case['class'] = kid
-        ctx.violation(what, case)
+        report(ctx, what, case)
 
 def replay_known(ctx, list_files_absolute):
     rn = Runner('c13k')
@@ -791,17 +825,17 @@ def replay_case(ctx):
         for v in r['viol']:
             if v.startswith('K13d:') and ctx.is_known('K13d'):
                 ctx.known_finding('K13d', 'mixed directory+patch overlay below a directory named .agentpack is deployed instead of refused (DESIGN F10)'); continue
-            ctx.violation(v, r['rec'])
+            report(ctx, v, r['rec'])
         for c in ctx.corr('replay', HEADER, 'check_compose', 'compose_case', [(r['term'], r['rec'])]):
-            ctx.violation('model and implementation disagree on the composed module tree / refusal code', c, no_input=True)
+            report(ctx, 'model and implementation disagree on the composed module tree / refusal code', c, no_input=True)
         ctx.count('replay', key=rec['scenario_seed'])
     elif st == 'ids':
         mid = ''.join(chr(c) for c in rec['id_codepoints'])
         with Avh() as avh:
             k = avh.call({'op': 'fs_key', 'id': mid}).get('out')
         bad = key_safety(k) if isinstance(k, str) else 'no key'
-        if bad: ctx.violation('derived directory name is unsafe: ' + bad, rec)
-        if k != py_key(mid): ctx.violation('fs key is not <sanitised bounded prefix>--<sha256[:10]>', rec)
+        if bad: report(ctx, 'derived directory name is unsafe: ' + bad, rec)
+        if k != py_key(mid): report(ctx, 'fs key is not <sanitised bounded prefix>--<sha256[:10]>', rec)
         ctx.count('replay', key=mid)
     else:
         replay_known(ctx, probe_list_files())
